@@ -14,7 +14,13 @@ VERIF = os.path.dirname(os.path.abspath(__file__))
 
 
 def sh(cmd, cwd, timeout=3000):
-    p = subprocess.run(cmd, cwd=cwd, env=ENV, stdout=subprocess.PIPE, stderr=subprocess.STDOUT, text=True, timeout=timeout)
+    for attempt in range(4):
+        p = subprocess.run(cmd, cwd=cwd, env=ENV, stdout=subprocess.PIPE, stderr=subprocess.STDOUT, text=True, timeout=timeout)
+        # a build cache disturbed by a concurrent job is a toolchain hiccup, not a result: try again
+        if p.returncode != 0 and ("could not import" in p.stdout or "cannot open file" in p.stdout or "go-build" in p.stdout and "no such file" in p.stdout):
+            time.sleep(20)
+            continue
+        break
     return p.returncode, p.stdout
 
 
